@@ -264,7 +264,7 @@ Free(i) ==
   /\ CanOp /\ "free" \in Ops /\ i \in 1..Len(dh) /\ AllocWorks
   /\ LET f == dh[i]  a2 == [al EXCEPT !.resv = @ \ {f}] IN
      /\ al' = a2 /\ dh' = [k \in 1..(Len(dh) - 1) |-> IF k < i THEN dh[k] ELSE dh[k + 1]] /\ df' = df \cup {f}
-     /\ Step(<<[k |-> "free", f |-> f, res |-> IF f \in al.resv THEN "ok" ELSE "frame is already free"] @@ Counters(a2)>>, <<1, i - 1>>)
+     /\ Step(<<[k |-> "free", f |-> f, res |-> IF f \in al.resv THEN "ok" ELSE "doublefree"] @@ Counters(a2)>>, <<1, i - 1>>)
   /\ UNCHANGED <<cfg, ph, as, active, cursor, kroot, zero, prot, priv>>
 
 \* allocate until out of memory, then once more
@@ -290,7 +290,7 @@ DFree ==
   /\ CanOp /\ "dfree" \in Ops /\ df # {} /\ AllocWorks
   /\ LET f == Min(df)  a2 == [al EXCEPT !.resv = @ \ {f}] IN
      /\ al' = a2
-     /\ Step(<<[k |-> "free", f |-> f, res |-> IF f \in al.resv THEN "ok" ELSE "frame is already free"] @@ Counters(a2)>>, <<2, 0>>)
+     /\ Step(<<[k |-> "free", f |-> f, res |-> IF f \in al.resv THEN "ok" ELSE "doublefree"] @@ Counters(a2)>>, <<2, 0>>)
   /\ UNCHANGED <<cfg, ph, as, active, cursor, kroot, zero, prot, dh, df, priv>>
 
 MapEv(what, u, fr, res, sp, a) ==
@@ -345,7 +345,7 @@ Unmap(u) ==
   /\ LET m  == UnmapIn([a |-> al, sp |-> as, ok |-> TRUE], active, UP[u])
          a2 == [al EXCEPT !.resv = @ \ {priv[u]}]
          e1 == [k |-> "unmap", u |-> u, p |-> Wn(UP[u]), res |-> "ok", pg |-> PgRec(ActiveAS(m.sp, active), UP[u])]
-         e2 == [k |-> "free", f |-> priv[u], res |-> IF priv[u] \in al.resv THEN "ok" ELSE "frame is already free"] @@ Counters(a2)
+         e2 == [k |-> "free", f |-> priv[u], res |-> IF priv[u] \in al.resv THEN "ok" ELSE "doublefree"] @@ Counters(a2)
      IN /\ al' = a2 /\ as' = m.sp /\ df' = {priv[u]}
         /\ priv' = [priv EXCEPT ![u] = 0]
         /\ Step(<<e1, e2>>, <<12, u - 1>>)
